@@ -255,6 +255,23 @@ func TestVfC10Rules(t *testing.T) {
 			if len(name) == 0 {
 				name = c10GenName(t, 1)
 			}
+			deepName := false
+			if rapid.IntRange(0, 9).Draw(t, "deepName") == 0 {
+				deepName = true // (asked with an OPT, so that the answer is not cut to 512 octets)
+				// a name of 30-120 labels (a reverse name of an IPv6 address has 34): whatever it ends in still decides
+				deep := rapid.IntRange(30, 120).Draw(t, "labels")
+				for len(name) < deep && 2*(len(name)+1)+8 < 250 {
+					name = append([]string{string("abcdef0123456789"[len(name)%16])}, name...)
+				}
+				w := 1
+				for _, l := range name {
+					w += 1 + len(l)
+				}
+				for w > 255 {
+					w -= 1 + len(name[0])
+					name = name[1:]
+				}
+			}
 			qtype := rapid.SampledFrom([]uint16{1, 28, 16}).Draw(t, "qtype")
 			qclass := rapid.SampledFrom([]uint16{1, 1, 3}).Draw(t, "qclass")
 			key := fmt.Sprint(name, qtype, qclass)
@@ -305,9 +322,9 @@ func TestVfC10Rules(t *testing.T) {
 				before[i] = u.NumQueries()
 			}
 			id := uint16(1000 + qi)
-			res := a.AskPatient("udp", Query(id, wn, qtype, qclass, false), 3*time.Second)
+			res := a.AskPatient("udp", Query(id, wn, qtype, qclass, deepName), 3*time.Second)
 			if len(res.Resps) == 0 {
-				res = a.Ask("udp", Query(id, wn, qtype, qclass, false), 3*time.Second, 0)
+				res = a.Ask("udp", Query(id, wn, qtype, qclass, deepName), 3*time.Second, 0)
 			}
 			desc := fmt.Sprintf("query %s type %d class %d; reference decision %s by rule %d\nconfiguration:\n%s\nfiles: %q", strings.Join(name, "."), qtype, qclass, decision, by, cfg.YAML(), files)
 			if len(res.Resps) != 1 {
